@@ -356,4 +356,29 @@ theorem thread_progress (U : Universe) (w : World) (s : CState) (st : TState) (m
   | rStamp => simp [stepT, TState.remaining]
   | done o => simp [TState.isDone] at h
 
+/-! ## the hypotheses of the theorems above are satisfiable (concrete non-trivial instances) -/
+
+-- xsi_lookup_linearizable / concurrent_safe_with_scans: h0 with a TRUE premise (warm, current stamp)
+example : (doBuildXsi oneU w1 State.init).sysModules = w1.mods + 1 ∧
+    (doBuildXsi oneU w1 State.init).xsi = pureIndex oneU w1.loaded := by decide
+
+-- published_index_complete: hstamp
+example : (runSched oneU w1 (Sys.start State.init [findPA, findPA]) raceSchedule).shared.sysModules = w1.mods + 1 := by decide
+
+-- lookups_preserve_index_keys: hd
+example : (runSched oneU w1 (Sys.start State.init [findPA, findPA]) raceSchedule).shared.heap[1]? = some (pureIndex oneU w1.loaded) := by decide
+
+-- thread_progress
+example : ((CState.ofState State.init).dict (CState.ofState State.init).ref).length ≤ 0 ∧
+    (TState.xCheck (.scan ["x".toList])).isDone = false := by decide
+
+/-- the hypothesis `h0` of `build_race_benign_warm_cache` holds of a NON-empty cache:
+the context that has already built `PA` -/
+example : (run oneU State.init [(w1, .build 0 none)]).cache.length = 1 ∧
+    ∀ c p m, (run oneU State.init [(w1, .build 0 none)]).cache.lookup (c, p) = some m →
+      pureBuild oneU c p = .ok m := by
+  refine ⟨by decide, ?_⟩
+  obtain ⟨t', hI, _⟩ := run_inv (U := oneU) [(w1, .build 0 none)] Track.empty State.init (Inv.init oneU _) (by decide)
+  exact hI.cache
+
 end Props.C19
